@@ -395,3 +395,41 @@ def gen_scn(r, family, tier):
         scn["seed"] = r.choice([None, 0, 1, 42, r.randint(0, 10 ** 6)])
         scn["seed_step"] = r.randint(0, 5)
     return scn
+
+
+# -- "reproducible for a given seed" also means: in another process, under another hash seed -----------------------
+def jitter_digests(seed, n):
+    import hashlib
+    from .common import sub_rng
+    import_repo()
+    from eudoxia.tools import jitter_command
+    out = []
+    for i in range(n):
+        r = sub_rng(seed, "C20", "jitter", i)
+        scn = gen_scn(r, "jitter", "quick")
+        if scn["delta"] == 0:
+            scn["delta"] = 0.25
+        d = tempfile.mkdtemp(prefix="verif_c20_")
+        try:
+            cols, rows = make_rows(scn)
+            p_in, p1 = os.path.join(d, "in.csv"), os.path.join(d, "j.csv")
+            write_csv(p_in, cols, rows)
+            with quiet():
+                jitter_command(p_in, p1, scn["delta"], seed=scn["seed"], force=True)
+            out.append(hashlib.sha256(open(p1, "rb").read()).hexdigest()[:16])
+        finally:
+            shutil.rmtree(d, ignore_errors=True)
+    return out
+
+
+def fresh_jitter_digests(seed, n, hashseed):
+    import json
+    import subprocess
+    from .common import VERIF_DIR
+    env = dict(os.environ, PYTHONHASHSEED=str(hashseed))
+    p = subprocess.run([os.path.join(VERIF_DIR, "check"), "selftest", "c20digest", str(seed), str(n)],
+                       capture_output=True, text=True, timeout=900, env=env, cwd=VERIF_DIR)
+    line = [l for l in p.stdout.splitlines() if l.startswith("DIGESTS ")]
+    if p.returncode != 0 or not line:
+        raise RuntimeError("fresh interpreter failed: " + (p.stdout + p.stderr)[-500:])
+    return json.loads(line[0][8:])
